@@ -198,7 +198,7 @@ def _prune(keep):
     ents.sort(key=mt, reverse=True)
     now = time.time()
     for e in ents[30:]:
-        if e != keep and now - mt(e) > 3600:
+        if e != keep and now - mt(e) > 1500:
             shutil.rmtree(os.path.join(root, e), ignore_errors=True)
     live = set(ents[:30]) | {keep}
     try:
@@ -206,7 +206,7 @@ def _prune(keep):
             if fn.startswith(".lock-") and fn.count("-") >= 2:
                 k = fn.split("-")[1]
                 p = os.path.join(root, fn)
-                if k not in live and not os.path.isdir(os.path.join(root, k)) and now - os.path.getmtime(p) > 3600:
+                if k not in live and not os.path.isdir(os.path.join(root, k)) and now - os.path.getmtime(p) > 1500:
                     os.unlink(p)
     except OSError:
         pass
